@@ -124,6 +124,19 @@ func toMapData(data any) map[string]any {
 	return make(map[string]any)
 }
 
+// mergeFrontMatter returns a new map holding data overlaid with front-matter.
+// The caller's data is left untouched.
+func mergeFrontMatter(data, frontMatter map[string]any) map[string]any {
+	merged := make(map[string]any, len(data)+len(frontMatter))
+	for k, v := range data {
+		merged[k] = v
+	}
+	for k, v := range frontMatter {
+		merged[k] = v
+	}
+	return merged
+}
+
 // Render processes a full-page template file and writes the output to w.
 // Front-matter data in the template is authoritative and overrides passed data.
 // Render is safe to call concurrently from multiple goroutines.
@@ -133,11 +146,8 @@ func (v *Vue) Render(w io.Writer, filename string, data any) error {
 		return err
 	}
 
-	// Merge front-matter data into the provided data (front-matter is authoritative)
-	dataMap := toMapData(data)
-	for k, v := range frontMatter {
-		dataMap[k] = v
-	}
+	// Merge front-matter data over a copy of the provided data (front-matter is authoritative)
+	dataMap := mergeFrontMatter(toMapData(data), frontMatter)
 
 	// Create context for v-once attribute tracking
 	vueCtx := NewVueContext(filename, &VueContextOptions{
@@ -226,11 +236,8 @@ func (v *Vue) RenderFragment(w io.Writer, filename string, data any) error {
 		return err
 	}
 
-	// Merge front-matter data into the provided data (front-matter is authoritative)
-	dataMap := toMapData(data)
-	for k, v := range frontMatter {
-		dataMap[k] = v
-	}
+	// Merge front-matter data over a copy of the provided data (front-matter is authoritative)
+	dataMap := mergeFrontMatter(toMapData(data), frontMatter)
 
 	// Create context for v-once attribute tracking
 	vueCtx := NewVueContext(filename, &VueContextOptions{
